@@ -1593,6 +1593,9 @@ theorem exploitBody_fire (c : Cfg) (s : St) (h : s.cur = .exploit) (hn : s.nxt =
     Res .exploit (exploitBody c s) := by
   unfold exploitBody
   split
+  · have := progress_spec { s with numAcls := 0, chosen := Act.nothing } .exploit rfl hn h
+    exact Or.inr (Or.inl ⟨this.1, this.2.1⟩)
+  split
   · exact Or.inl ⟨h, hn⟩
   · rename_i a _
     split
